@@ -10,18 +10,20 @@ set_option linter.unusedSectionVars false
 namespace Cook
 variable {α : Type} [Arith α]
 
-def Ev.isMeta : Ev α → Bool
+/-- a metadata-carrying event: `Event::Metadata` or `Event::YAMLFrontMatter` -/
+def Ev.isKey : Ev α → Bool
   | .metadata _ _ => true
+  | .frontMatter _ => true
   | _ => false
 
 /-- the metadata events of an event queue, in order -/
-def metaOf (evs : Array (Ev α)) : List (Ev α) := evs.toList.filter Ev.isMeta
+def metaOf (evs : Array (Ev α)) : List (Ev α) := evs.toList.filter Ev.isKey
 
 theorem metaOf_push (evs : Array (Ev α)) (e : Ev α) :
-    metaOf (evs.push e) = metaOf evs ++ (if e.isMeta then [e] else []) := by
+    metaOf (evs.push e) = metaOf evs ++ (if e.isKey then [e] else []) := by
   unfold metaOf
   rw [Array.toList_push, List.filter_append]
-  cases h : e.isMeta <;> simp [List.filter, h]
+  cases h : e.isKey <;> simp [List.filter, h]
 
 /-- `f` adds no metadata event to the queue, and its result satisfies `Q` -/
 structure MF {β : Type} (Q : β → Prop) (f : P α β) : Prop where
@@ -71,7 +73,7 @@ theorem mf_panicWith (site : String) : MF (α := α) (fun _ => True) (panicWith 
   intro s; split <;> rfl
 macro_rules | `(tactic| mf_leaf) => `(tactic| with_reducible exact mf_panicWith _)
 
-theorem mf_pushEv (e : Ev α) (h : e.isMeta = false) : MF (α := α) (fun _ => True) (pushEv e) := by
+theorem mf_pushEv (e : Ev α) (h : e.isKey = false) : MF (α := α) (fun _ => True) (pushEv e) := by
   refine ⟨fun s => ⟨?_, trivial⟩⟩
   show metaOf (s.evs.push e) = _
   rw [metaOf_push, h]; simp
@@ -241,7 +243,7 @@ theorem mf_checkEmptyName (c : String) (n : Text) : MF (α := α) (fun _ => True
 macro_rules | `(tactic| mf_leaf) => `(tactic| with_reducible exact mf_checkEmptyName _ _)
 
 /-- an optional event that is not a metadata event -/
-def NM (r : Option (Ev α)) : Prop := ∀ ev, r = some ev → ev.isMeta = false
+def NM (r : Option (Ev α)) : Prop := ∀ ev, r = some ev → ev.isKey = false
 
 macro_rules | `(tactic| mf_leaf) => `(tactic| (with_reducible refine MF.pure _ ?_) <;> (intro ev h; cases h <;> rfl))
 
